@@ -788,6 +788,16 @@ class _Interp(object):
             if k == 0:
                 return env.get('<p0>', self.p0 if self.p0 is not None else IMMUT)
             return base.sym_own(k)
+        # reading a missing key of a module-level defaultdict inserts it: a read that writes shared state
+        if isinstance(e.ctx, ast.Load) and isinstance(e.value, (ast.Name, ast.Attribute)) and \
+                not (isinstance(e.value, ast.Name) and e.value.id in env):
+            try:
+                r = self.eff.model.resolve_attr_chain(self.m, e.value)
+            except Exception:
+                r = None
+            if r and r[0] == 'const' and isinstance(r[3], ast.Call) and (sa.call_name(r[3]) or "").split('.')[-1] == 'defaultdict' \
+                    and r[3].args and not (isinstance(r[3].args[0], ast.Constant) and r[3].args[0].value is None):
+                self.event(e, 'store', base, '%s (a defaultdict: looking up a missing key inserts it)' % src(e))
         return base.element()
 
     def e_BinOp(self, e, env):
